@@ -1276,3 +1276,26 @@ class P(Prop):
             else:
                 yield dict(case, delta={"num": rng.choice([0.5, 1.0, 2.0])}, npts=None)
                 yield dict(case, delta={"list": []}, npts=rng.choice([None, 3]))
+
+
+# ---- tie to the source by translation (tools/py2lean.py -> lean/TracklibVerif/Gen/Interpolation.lean, regenerated on every run)
+P.tie_modules = ["TracklibVerif.Tie.C05", "TracklibVerif.Tie.C05Spatial"]
+P.theorems = P.theorems + [
+    ("TracklibVerif.Tie.C05", "TV.Tie.C05.tie_prepareTimeSampling_list", "the Lean translation of the CURRENT source of prepareTimeSampling, input a list of ObsTime (seen through toAbsTime), equals the model's prepareTimes (.instants l) on every argument"),
+    ("TracklibVerif.Tie.C05", "TV.Tie.C05.tie_prepareTimeSampling_track", "the translated prepareTimeSampling, input a Track, equals the model's prepareTimes (.track Q) on every argument"),
+    ("TracklibVerif.Tie.C05", "TV.Tie.C05.tie_prepareTimeSampling_number_fuel", "the translated prepareTimeSampling, input a number (the while-1 loop with break), run with fuel f returns the list of the model's prepareNumber run with the SAME fuel and is out of fuel exactly when the model's loop is; no hypothesis"),
+    ("TracklibVerif.Tie.C05", "TV.Tie.C05.tie_prepareTimeSampling_number", "whenever the model's prepareTimes (.number d) does not say nonterm, the translated prepareTimeSampling returns its list for EVERY fuel >= the model's int((tfin-tini)/d)+2"),
+    ("TracklibVerif.Tie.C05", "TV.Tie.C05.tie_prepareTimeSampling_number_nonpos", "a step that is not positive: the translated prepareTimeSampling is out of fuel for EVERY fuel (= the model's nonterm) when not tfin < tini and the step never carries an instant past tfin"),
+    ("TracklibVerif.Tie.C05", "TV.Tie.C05.prepareTimeSampling_number_first_round", "witness of the excluded case: whatever the sign of the step, when tini + d > tfin the translated prepareTimeSampling returns [tini] (for a non-positive step the model says nonterm)"),
+    ("TracklibVerif.Tie.C05", "TV.Tie.C05.temporalLoop_tie", "the for-k-in-range(len(REF)) loop of __resampleTemporal (skip tests, rewind join, while scan, bracket reads with Python's index -1, two divisions, appended observation) equals the model's temporalLoop, for an arbitrary body satisfying the pointwise equation proved of the generated body"),
+    ("TracklibVerif.Tie.C05", "TV.Tie.C05.tie_resampleTemporal_list", "the Lean translation of the CURRENT source of __resampleTemporal, reference a list of ObsTime, equals lift (resampleTemporal (.instants l)) on EVERY track and list for every fuel > len(track), errors included (IndexError, ZeroDivisionError); hypothesis: den < 0 or 0 < den is the negation of den == 0 on differences of two stamps"),
+    ("TracklibVerif.Tie.C05", "TV.Tie.C05.tie_resampleTemporal_track", "the translated __resampleTemporal, reference a Track, equals lift (resampleTemporal (.track Q)) on EVERY track and reference for every fuel > len(track); same hypothesis"),
+    ("TracklibVerif.Tie.C05", "TV.Tie.C05.tie_resampleTemporal_number_fuel", "the translated __resampleTemporal, reference a number, for every fuel > len(track): IndexError on an empty track, out of fuel exactly when the model's prepareNumber with the SAME fuel is, else lift of the model's temporalLoop on prepareNumber's list; no hypothesis on the step"),
+    ("TracklibVerif.Tie.C05", "TV.Tie.C05.tie_resampleTemporal_number", "whenever the model's resampleTemporal (.number d) does not say nonterm, the translated __resampleTemporal returns lift of the model's result for EVERY fuel > len(track) and >= the model's fuel int((tfin-tini)/d)+2"),
+    ("TracklibVerif.Tie.C05", "TV.Tie.C05.tie_resampleTemporal_number_nonpos", "a step that is not positive, on a non-empty track with not tfin < tini: the translated __resampleTemporal is out of fuel for EVERY fuel and the model says nonterm"),
+]
+P.theorems = P.theorems + [
+    ("TracklibVerif.Tie.C05Spatial", "TV.Tie.C05Spatial.tie_resampleSpatial", "__resampleSpatial translated from the CURRENT source = the model's resampleSpatial (cum/legs2D, scanB, bracket, spatialLoop), exceptions included, for every fuel >= len(track); hypotheses: x**2 = x*x, IntCast = NatCast, the zero test of ds and of abscissa differences is the model's, not (empty track and ds == 0)"),
+    ("TracklibVerif.Tie.C05Spatial", "TV.Tie.C05Spatial.tie_resampleSpatial_of_zeroTest", "the same with the zero-test hypothesis for every scalar (ordered fields)"),
+    ("TracklibVerif.Tie.C05Spatial", "TV.Tie.C05Spatial.resampleSpatial_empty_zero", "order of exceptions on an empty track with ds == 0: what the code raises (ZeroDivisionError)"),
+]
